@@ -324,6 +324,9 @@ def match_pair(ctx: Ctx, rule: str, sub: str, qual: str, steps: List[Step], mods
                 # inner calls of a claimed call expression are part of it
                 if any(id(a) in claimed for a in ancestors(c) if isinstance(a, ast.Call)):
                     continue
+                # the same effect written once per mutually exclusive arm / handler (a duplicated tail)
+                if any(id(o) in claimed and norm(o) == norm(c) and _exclusive(o, c) for o in all_calls):
+                    continue
                 ctx.check(rule, w, f"unclaimed effect {callee_shape(c.func)}", False, f"{rt} {q}: effect `{norm(c)[:70]}` has no counterpart in the common skeleton (added on this worker only?)", c)
 
 
@@ -332,6 +335,11 @@ def _exclusive(a: ast.AST, b: ast.AST) -> bool:
     anc_a = [a] + list(ancestors(a))
     anc_b = [b] + list(ancestors(b))
     for x in anc_a:
+        if isinstance(x, ast.Try) and any(x is y for y in anc_b):
+            ha = [h for h in x.handlers if any(h is y for y in anc_a)]
+            hb = [h for h in x.handlers if any(h is y for y in anc_b)]
+            if ha and hb and ha[0] is not hb[0]:
+                return True
         if isinstance(x, ast.If) and any(x is y for y in anc_b):
             def arm(path):
                 for i, n in enumerate(path):
